@@ -5,6 +5,7 @@ value, calls are recorded; unpatched method on a patched endpoint -> -32601; end
 refusal; batches element-wise.
 """
 
+import itertools
 import json
 from typing import Any, Dict, List, Optional, Tuple
 
@@ -138,6 +139,39 @@ class C20(Check):
             lambda t, pt, ops: {'target': t, 'passthrough': pt if t != 'requests' else False, 'ops': [list(o) for o in ops]},
             st.sampled_from(['sync', 'sync', 'async', 'async', 'requests']), st.booleans(), s_ops,
         )
+
+    # ---- bounded exhaustive part: every history over a small operation alphabet on one (endpoint, method) pair ------------------
+
+    def _words(self, maxlen: int, shard: int = 0, nshards: int = 1):
+        r = lambda v: {'kind': 'result', 'value': v}  # noqa: E731
+        k = 0
+        for n in range(1, maxlen + 1):
+            for word in itertools.product('AOCNBRM', repeat=n):
+                if word[0] not in 'AO':
+                    continue        # nothing is patched yet: such histories start with an add
+                k += 1
+                if k % nshards != shard:
+                    continue
+                ops: List[Any] = []
+                for i, w in enumerate(word):
+                    ops.append({'A': ['add', 0, 0, r(f'A{i}'), False], 'O': ['add', 0, 0, r(f'O{i}'), True], 'C': ['call', 0, 0, [i], i + 1],
+                                'N': ['notify', 0, 0, [i]], 'B': ['batch', 0, [[0, [i]], [0, None, True]]], 'R': ['remove', 0, None], 'M': ['remove', 0, 0]}[w])
+                ops.append(['call', 0, 0, [99], 99])        # whatever the history left behind is probed by one more call
+                yield {'target': ['sync', 'async'][k % 2], 'passthrough': (k // 2) % 2 == 0, 'ops': ops}
+
+    def enumerate(self, tier: str):
+        return self._words(4) if tier == 'quick' else None
+
+    def enum_shards(self, tier: str) -> int:
+        return 16
+
+    def enumerate_shard(self, tier: str, shard: int, nshards: int):
+        return self._words(6, shard, nshards)
+
+    def exhaustive_note(self, tier: str) -> str:
+        n = 4 if tier == 'quick' else 6
+        return (f"all histories of length <= {n} over {{add, add once, call, notify, batch of a call + a notification, remove endpoint, remove method}} on one "
+                "(endpoint, method) pair, each followed by a probing call (target and passthrough rotate)")
 
     def corpus(self):
         r = lambda v: {'kind': 'result', 'value': v}  # noqa: E731
